@@ -601,7 +601,12 @@ func runFree(c *core.Case) {
 
 	// reader goroutine
 	t := newTailer(dir)
-	defer t.close()
+	readerRunning := false // the reader goroutine owns the tailer while it runs
+	defer func() {
+		if !readerRunning {
+			t.close()
+		}
+	}()
 	next := make([]int, nw) // per writer: index of the next expected record
 	var vkind, vmsg string
 	aheadEOF := 0
@@ -664,12 +669,14 @@ func runFree(c *core.Case) {
 	case <-time.After(120 * time.Second):
 		c.Inconclusive("writers did not finish within 120 s")
 		closed = true // the writers still own the WL (one may be re-opening it): leave it to them
+		readerRunning = true
 		return
 	}
 	select {
 	case <-readerDone:
 	case <-time.After(120 * time.Second):
 		c.Inconclusive("reader did not finish within 120 s")
+		readerRunning = true
 		return
 	}
 	for wi, err := range logErr {
